@@ -9,6 +9,7 @@ C13 - re-expressing a crystal (P1, supercell, trigonal axes) preserves the struc
 Oracle: bidirectional coincidence of the two infinite atom arrangements modulo the lattices, atom
 count ~ volume, density, round trip.
 """
+from mc.paths import TEST_FILES
 import itertools
 
 import numpy as np
@@ -165,7 +166,7 @@ def trig_initial(spec):
     from chmpy.core.element import Element
 
     if spec["asym"] == "r3c_example":
-        c = Crystal.load("/repo/src/chmpy/tests/test_files/r3c_example.cif")
+        c = Crystal.load(TEST_FILES + "r3c_example.cif")
         c = xtal.fresh_from_state(xtal.public_state(c))
         if spec["start"] == "R":
             c.choose_trigonal_lattice("R")
